@@ -1602,6 +1602,9 @@ for _pid in ["C01", "C02", "C03", "C04", "C05", "C06", "C07", "C08", "C09", "C10
        _generic.default_first)
     ok(_pid, "final return copied into the arms of the preceding if / elif / else",
        _generic.return_in_branches)
+    ok(_pid, "append loops written as list comprehensions", _generic.loops_to_comprehensions)
+    ok(_pid, "statement-level list comprehensions written as append loops",
+       _generic.comprehensions_to_loops)
 
 ok("C02", "selector locals renamed in Tempo._influence", _multi(
     _sub(TE, "tmp_deg_positions", "positions_pair", count=100)))
